@@ -228,6 +228,37 @@ pub fn zero_syllable_child(recs: &[IRec]) -> bool {
     false
 }
 
+/// A 16-bit value that is a syllable code (what `Syllable::try_from` has to accept since the repair of C13's F47),
+/// computed here from the bit layout alone — independent of the repository's `try_from` and of the Lean model:
+/// the empty pattern 0x8000, or marker bit clear, initial <= 21, medial <= 3, rime <= 13, tone <= 5, not zero.
+pub fn is_syllable_code(v: u16) -> bool {
+    if v == 0x8000 {
+        return true;
+    }
+    v != 0 && v & 0x8000 == 0 && (v >> 9) & 0x3f <= 21 && (v >> 7) & 3 <= 3 && (v >> 3) & 0xf <= 13 && v & 7 <= 5
+}
+
+/// a random valid (non-empty) syllable code: any combination of in-range component fields, not all absent
+pub fn valid_code(rng: &mut vharness::Rng) -> u16 {
+    loop {
+        let v = (rng.below(22) * 512 + rng.below(4) * 128 + rng.below(14) * 8 + rng.below(6)) as u16;
+        if v != 0 {
+            return v;
+        }
+    }
+}
+
+/// values `Syllable::try_from` must reject although they are not zero: component index out of range (initial 53 /
+/// tone 7; tone 6; initial 22; rime 14 and 15), marker bit next to other bits, all ones
+pub const INVALID_CODES: &[u16] = &[0x6a07, 0x8208, 0x020e, 0xffff, 0x2bee, 0x2c00, 0x0070, 0x0078, 0x8001, 0xa81c, 0x0007];
+
+/// a node record (any record but the root with a non-zero syllable field) whose syllable is not a syllable code.
+/// Mirrors `¬ sylsOk` of `Model/TrieValidate.lean`; since the repair of F47 `validate_index` has to reject such an index
+/// (`entries()` would panic at `Syllable::try_from(..).unwrap()`).
+pub fn invalid_syllable_node(recs: &[IRec]) -> bool {
+    recs.iter().enumerate().any(|(i, r)| i != 0 && r.s != 0 && !is_syllable_code(r.s))
+}
+
 // ---------------------------------------------------------------- child-process workers
 pub enum Ev {
     /// a line the worker printed
